@@ -26,10 +26,13 @@ def solve(formula, display=True, log=False, params={}):
     except AttributeError:
         pass
 
-    # ECOS_BB mishandles models with both boolean and integer index lists:
-    # binaries are passed as integers with bounds clipped to [0, 1]
-    bool_idx = []
-    int_idx = [i for i in range(len(formula.vtype)) if formula.vtype[i] in 'BI']
+    bool_idx = [i for i in range(len(formula.vtype)) if formula.vtype[i] == 'B']
+    int_idx = [i for i in range(len(formula.vtype)) if formula.vtype[i] == 'I']
+    if bool_idx and int_idx:
+        # ECOS_BB mishandles models with both boolean and integer index lists:
+        # binaries are then passed as integers with bounds clipped to [0, 1]
+        int_idx = sorted(bool_idx + int_idx)
+        bool_idx = []
     is_bin = (formula.vtype == 'B')
     lb = np.array(formula.lb, dtype=float)
     ub = np.array(formula.ub, dtype=float)
